@@ -27,15 +27,29 @@ class CellSpec(statex.Spec):
 
 
 def observe(spec, history):
-    w = statex.build(spec, [tuple(e) for e in history])
-    keys = sorted({(v['clause'], v['site']) for v in w.viol})
-    return keys, statex.digest(spec.canon(w))
+    """Violation keys and final digest of one history; an exception escaping
+    the implementation on the last event is reported the way the explorer
+    reports it (spec.exception_clause)."""
+    hist = [tuple(e) for e in history]
+    w = statex.build(spec, hist[:-1])
+    viol = list(w.viol)
+    ok = True
+    if hist:
+        ok, exc = statex.step(spec, w, hist[-1])
+        viol = list(w.viol)
+        if not ok and spec.exception_clause:
+            viol.append({'clause': spec.exception_clause,
+                         'site': exc['site'], 'detail': exc})
+    keys = sorted({(v['clause'], v['site']) for v in viol})
+    return keys, viol, (statex.digest(spec.canon(w)) if ok else None)
 
 
 def confirm(spec, hist, clause, site):
     """Replay twice in fresh worlds; identical observations required."""
     o1 = observe(spec, hist)
     o2 = observe(spec, hist)
+    o1 = (o1[0], o1[2])
+    o2 = (o2[0], o2[2])
     if o1 != o2:
         raise statex.HarnessError('non-deterministic replay of %r' % (hist,))
     if (clause, site) not in o1[0]:
@@ -63,7 +77,8 @@ def run_configs(ctx, configs, nontrivial_keys, rule, assumptions,
                                          else 1.0) / wsum
         res = statex.bfs(spec, depth, max_dev=max_dev, workers=ctx.workers,
                          time_cap=per_cfg_budget, progress=ctx.log,
-                         init_histories=cfg.get('seeds', ((),)))
+                         init_histories=cfg.get('seeds', ((),)),
+                         bisim_depth=cfg.get('bisim_depth', 0))
         cov['states'] += res.states
         cov['transitions'] += res.transitions
         cov['configs'][name] = {
@@ -72,6 +87,7 @@ def run_configs(ctx, configs, nontrivial_keys, rule, assumptions,
             'transitions': res.transitions, 'level_sizes': res.level_sizes,
             'space_exhausted': res.exhausted,
             'events': len(cfg['events']), 'wall_s': round(res.wall_s, 1),
+            'bisimulation_pairs_checked': res.bisim_pairs,
         }
         cov['caps_hit'].extend('%s: %s' % (name, c) for c in res.caps_hit)
         for k, v in res.stats.items():
@@ -112,10 +128,9 @@ def replay_config(ctx, configs, data, spec_cls=None):
     entry = cfgs[data['config']]
     cls = entry[4] if len(entry) > 4 else (spec_cls or CellSpec)
     spec = cls(entry[1])
-    hist = [tuple(e) for e in data['history']]
-    w = statex.build(spec, hist)
+    _keys, viol, _dg = observe(spec, data['history'])
     seen = {}
-    for v in w.viol:
+    for v in viol:
         seen.setdefault((v['clause'], v['site']), v)
     return {'coverage': {}, 'violations': [
         {'clause': c, 'site': s, 'detail': v['detail']}
